@@ -439,6 +439,10 @@ class SReal:
         s = self._const_sign()
         if s is not None:
             return s == 0
+        if CTX.cache.get("assume_divisors_nonzero"):
+            # harness-declared domain assumption: divisors are non-zero (listed in the evidence)
+            CTX.assume(z3.Not(self.z() == 0), check=False)
+            return False
         if self.v.rf is not None:
             num = self.v.rf[0]
             if P.p_is_const(num):
